@@ -102,7 +102,8 @@ def run(ctx, rep, tier):
         rep.check(len(inner) == 1 and ast.unparse(inner[0].iter) == ov, "C08.c", CV, f"every pattern of every clause in {outer_iter} is converted and merged", "flatten loop changed")
     ps = ast.unparse(model.func("ParseCtx._parse_stmt"))
     rep.check((model.has("ParseCtx._parse_stmt", "priorities[k] = int(block.children[0].value)") or
-               (model.has("ParseCtx._parse_stmt", "priorities[self._add_case_clause(case_blocks, clause)] = int(block.children[0].value)") and
+               ((model.has("ParseCtx._parse_stmt", "priorities[self._add_case_clause(case_blocks, clause)] = int(block.children[0].value)") or
+                 model.has("ParseCtx._parse_stmt", "priorities[self._add_case_clause(case_blocks, clause)] = self._convert_int(block.children[0].value)")) and
                 model.has("ParseCtx._add_case_clause", "labels, body = self._parse_case_clause(clause)\n...\ncase_blocks[labels] = body\nreturn labels"))) and model.has("ParseCtx._parse_stmt", "CaseNode(case_blocks, greedy=True, priorities=priorities)"), "C08.c", "ParseCtx._parse_stmt",
               "prio N blocks record N for each of their clauses", "greedy case parsing changed")
     init = ast.unparse(model.func("CaseNode.__init__"))
